@@ -413,6 +413,7 @@ public:
       c.rad_mode = r.chance(0.3) ? 1 : 0;
       c.max_neutral = r.chance(0.3) ? 0.3 : -1.;
       c.diffuse_rhd = r.chance(0.4);
+      c.fields_mask = r.chance(0.4) ? (int)r.below(256) : 0;
       const char *vm = getenv("VERIF_MODE");
       if (vm && std::string(vm) == "valgrind") {
         // memcheck part: about 50x slower, and without UBSan the known
